@@ -118,6 +118,17 @@ def main():
             if "gen_error" in c or len(c["entries"]) < 2:
                 continue
             subjects.append((f"g-aiken#{c['index']}", c["modules"], [{"kind": "fn", "module": "m", "name": e["name"], "args": []} for e in c["entries"]]))
+        # hand-written subjects whose entries contain near-identical pieces (the same multi-line
+        # `expect` / trace / error text at different indentation, the same constants and helper
+        # calls): anything a generator keeps from one program can leak into the next
+        near = [
+            "pub fn first(x: Option<Int>) -> Data {\n  expect Some(a): Option<Int> =\n    x\n  let r: Data = a\n  r\n}\n\npub fn second(x: Option<Int>, b: Bool) -> Data {\n  let r: Data =\n    if b {\n      expect Some(a): Option<Int> =\n        x\n      a\n    } else {\n      0\n    }\n  r\n}\n\npub fn third(x: Option<Int>) -> Data {\n  let f =\n    fn(y) {\n      expect Some(a): Option<Int> =\n          y\n      a\n    }\n  let r: Data = f(x)\n  r\n}\n",
+            "pub type T { A { x: Int, y: ByteArray }  B }\n\npub fn p(d: Data) -> Data {\n  expect A { x, .. }: T =\n    d\n  let r: Data = x\n  r\n}\n\npub fn q(d: Data, b: Bool) -> Data {\n  let r: Data =\n    when b is {\n      True -> {\n        expect A { x, .. }: T =\n          d\n        x\n      }\n      False -> 1\n    }\n  r\n}\n",
+            "const k: List<Int> = [1, 2, 3]\n\nfn sum(xs: List<Int>) -> Int {\n  when xs is {\n    [] -> 0\n    [x, ..rest] -> x + sum(rest)\n  }\n}\n\npub fn a(n: Int) -> Data {\n  trace @\"same   message\"\n  let r: Data = sum(k) + n\n  r\n}\n\npub fn b(n: Int) -> Data {\n  trace @\"same message\"\n  let r: Data = sum(k) - n\n  r\n}\n\npub fn c(n: Int) -> Data {\n  let r: Data = if n > 0 { fail @\"same   message\" } else { sum(k) }\n  r\n}\n",
+        ]
+        for ni, src in enumerate(near):
+            names = re.findall(r"^pub fn (\w+)\(", src, re.M)
+            subjects.append((f"near-identical#{ni}", [{"name": "m", "kind": "lib", "src": src}], [{"kind": "fn", "module": "m", "name": n, "args": []} for n in names]))
         chk.count("generator_history_subjects", len(subjects))
         gjobs = []
         gmeta = {}
@@ -127,7 +138,7 @@ def main():
                 for reuse in (True, False):
                     if olabel != "as-written" and not reuse:
                         continue
-                    j = {"id": len(gjobs), "op": "compile_eval", "modules": modules, "tracings": ["silent-all"], "entries": order, "emit_hex": True, "detailed": False, "reuse_generator": reuse}
+                    j = {"id": len(gjobs), "op": "compile_eval", "modules": modules, "tracings": ["silent-all", "verbose-all", "compact-user"], "entries": order, "emit_hex": True, "detailed": False, "reuse_generator": reuse}
                     gmeta[j["id"]] = (mi, olabel, reuse)
                     gjobs.append(j)
         gres = A.run(gjobs)
@@ -140,13 +151,13 @@ def main():
             if "runs" not in r or "entries" not in r["runs"][0]:
                 chk.inconc("module-not-compiled")
                 continue
-            for e in r["runs"][0]["entries"]:
+            for run, e in [(run, e) for run in r["runs"] if "entries" in run for e in run["entries"]]:
                 if "hex" not in e:
                     if "compile_panic" in e:
                         chk.count("compile_panics(C10)")
                     continue
-                key = (mi, e["kind"], e.get("module"), e["name"])
-                w = {"module": origin, "source": src, "entry": e["name"], "history": [f"order={olabel}", "re-used generator" if reuse else "fresh generator per entry"]}
+                key = (mi, run["tracing"], e["kind"], e.get("module"), e["name"])
+                w = {"module": origin, "source": src, "entry": e["name"], "tracing": run["tracing"], "history": [f"order={olabel}", "re-used generator" if reuse else "fresh generator per entry"]}
                 # H4: state after == state of a brand-new generator (cached constants, index 6, are kept by design)
                 before, after = e.get("gen_state_before"), e.get("gen_state_after")
                 if fresh_state is None and not reuse:
